@@ -142,9 +142,11 @@ func genScript(r *hx.Rng, idx int) script {
 				perm[i], perm[j] = perm[j], perm[i]
 			}
 			for _, i := range perm[:cnt] {
-				switch r.Intn(4) {
+				switch r.Intn(5) {
 				case 0:
 					lines = append(lines, "early "+declaredOther(i, "X1"))
+				case 4: // filed under the party's pre-change key, signed over that key
+					lines = append(lines, "early "+fmt.Sprintf("signer=%d filed=X4 dh=X4 sig=s.%d.X4", i, i))
 				case 1:
 					lines = append(lines, "early "+fmt.Sprintf("signer=%d sig=junk", i))
 				default:
